@@ -417,3 +417,37 @@ def c15_6(run):
     if not n_ok:
         raise Inconclusive('vacuity: no accepting path')
     run.require_reached(*run.cur.reach)
+
+
+# ----------------------------------------------------------------------------------------------------------------- C15-7
+@obligation('C15', 'C15-7 Handler::verify_vote_extension (the ABCI answer): a peer\'s vote extension is accepted iff it is empty or passes verify_vote_extension; a failing one is answered Reject, never Accept')
+def c15_7(run):
+    import re
+    hooks = [(re.compile(r'^(bytes::)?Bytes::is_empty$'), lambda ctx: [(None, z3.Bool('extension_is_empty'))]),
+             (re.compile(r'get_max_num_currency_pairs(::<.*>)?$'), lambda ctx: [(None, M.thunk_future(lambda ex, s2, fut: [(z3.Bool('max_pairs_ok'), ok(z3.BitVec('max_pairs', 64))), (z3.Not(z3.Bool('max_pairs_ok')), (lambda s3: err()))]))]),
+             (re.compile(r'^(app::vote_extension::)?verify_vote_extension$'), lambda ctx: (ctx.st.log.append(('verify',)), [(z3.Bool('extension_valid'), (lambda s: ok(M.new_map('HashSet<u64>', [])))), (z3.Not(z3.Bool('extension_valid')), (lambda s: err()))])[1])]
+    ex, W = A.engine(extra_hooks=hooks)
+    cands = [n for n in ex.fns if n.endswith('::verify_vote_extension') and 'closure' not in n and (ex.impl_self(n) or (None, ''))[1] == 'Handler']
+    if len(cands) != 1:
+        raise Inconclusive(f'Handler::verify_vote_extension not found: {cands}')
+    run.bound(request='arbitrary VerifyVoteExtension; the content check (verify_vote_extension: price count and length limits) and the stored pair limit are oracles')
+    req = Obj('tendermint::abci::request::VerifyVoteExtension')
+    n = 0
+    for i, p in enumerate(run.explore(ex, ex.start(cands[0], [B.cell(Obj('Handler')), B.cell(Obj('S', kind='cell')), req]), poll=True, allow_havoc=(r'^Arguments::|fmt::',))):
+        if p.kind != 'return':
+            run.prove(f'no panic [path {i}]', p.pc, z3.BoolVal(False), detail=p.info); continue
+        n += 1
+        kind, r = poll_result(p)
+        empty, valid, mp = z3.Bool('extension_is_empty'), z3.Bool('extension_valid'), z3.Bool('max_pairs_ok')
+        ans = None
+        if kind == 'Ok':
+            v = ex.deref_val(p, r.fields[('Ok', 0)]); ans = v.discr if isinstance(v.discr, str) else ex.adts.variant_name(v.ty, v.discr) if isinstance(v.discr, int) else None
+        run.sample({'path': i, 'result': kind, 'answer': ans})
+        if kind == 'Ok':
+            run.prove(f'Accept iff empty or valid; Reject iff non-empty and invalid [path {i}]', p.pc,
+                      z3.And(z3.BoolVal(ans in ('Accept', 'Reject')), z3.BoolVal(ans == 'Accept') == z3.Or(empty, z3.And(mp, valid)), z3.BoolVal(ans == 'Reject') == z3.And(z3.Not(empty), mp, z3.Not(valid))))
+        else:
+            run.prove(f'an error only when the pair limit cannot be read for a non-empty extension [path {i}]', p.pc, z3.And(z3.Not(empty), z3.Not(mp)))
+    if n < 3:
+        raise Inconclusive('vacuity')
+    run.require_reached(*run.cur.reach)
